@@ -82,7 +82,8 @@ Definition do_labels (c : config) (ls : list label) (st : world * list label) : 
 Definition op_labels (w : world) (o : op) : list label :=
   match o with
   | ODispatch id key ttl port => [LSend (SDispatch id key ttl port)]
-  | OComplete wid => match running_actor w wid with Some a => [LWComplete a] | None => [] end
+  (* the worker's task goes on with its next mailbox item before the factory's task gets to run *)
+  | OComplete wid => match running_actor w wid with Some a => [LWComplete a; LWStart a] | None => [] end
   | OFail wid => match running_actor w wid with Some a => [LWDie a] | None => [] end
   | OKill wid => match newest_actor w wid with Some a => [LWDie a] | None => [] end
   | OResize n => [LSend (SResize n)]
